@@ -31,6 +31,35 @@ def norm(t):
     return " ".join(t.split())
 
 
+def same(t1, t2):
+    """equal after normalisation; a number and its signed spelling in 8/16/32 bits are the same operand"""
+    a, b = norm(t1), norm(t2)
+    if a == b:
+        return True
+    na = re.findall(r"<(-?\d+)>", a)
+    nb = re.findall(r"<(-?\d+)>", b)
+    if len(na) != len(nb) or re.sub(r"<-?\d+>", "N", a) != re.sub(r"<-?\d+>", "N", b):
+        return False
+    for x, y in zip(na, nb):
+        x, y = int(x), int(y)
+        if x == y:
+            continue
+        lo, hi = min(x, y), max(x, y)
+        if not (lo < 0 <= hi and any(hi - lo == (1 << w) and -lo <= (1 << (w - 1)) for w in (8, 16, 32))):
+            return False
+    return True
+
+
+def signature(t1, t2):
+    """coarse class of a disagreement: which part of the rendering changed"""
+    a, b = norm(t1).split(), norm(t2).split()
+    if not a or not b or a[0] != b[0]:
+        return "mnemonic"
+    if re.sub(r"<-?\d+>", "N", " ".join(a)) != re.sub(r"<-?\d+>", "N", " ".join(b)):
+        return "operands"
+    return "numeric"
+
+
 class Known:
     def __init__(self, prop):
         self.by = {}
@@ -39,10 +68,10 @@ class Known:
             if m.get("pred") == "cpu_kind_mnemonics":
                 for cpu in m["cpus"]:
                     for mn in m["mnemonics"]:
-                        self.by[(cpu, m["kind"], mn)] = f["id"]
+                        self.by[(cpu, m["kind"], mn, m.get("signature", "*"))] = f["id"]
 
-    def match(self, cpu, kind, mn):
-        return self.by.get((cpu, kind, mn)) or self.by.get((cpu, kind, "*"))
+    def match(self, cpu, kind, mn, sig="*"):
+        return self.by.get((cpu, kind, mn, sig)) or self.by.get((cpu, kind, mn, "*")) or self.by.get((cpu, kind, "*", "*"))
 
 
 def scan(w, s, name, tier, kinds_wanted, known, prop, survey):
@@ -88,14 +117,15 @@ def scan(w, s, name, tier, kinds_wanted, known, prop, survey):
             continue
         if kind == "c07_mismatch":
             p, tail, mode, t1, t2 = int(f[1]), int(f[2]), f[3], f[4], f[5]
-            if norm(t1) == norm(t2):
+            if same(t1, t2):
                 s.count("closed_after_normalisation")
                 continue
-            mn = t1.split()[0].lower() if t1.split() else "?"
+            mn = norm(t1).split()[0] if norm(t1).split() else "?"
+            mn = mn + "/" + signature(t1, t2)
             groups.setdefault(("c07_mismatch", mn), []).append(dict(pattern=p, tail=tail, mode=mode, first=t1, second=t2))
         elif kind in ("c01_walk", "c01_refix"):
             p, tail, t1, detail = int(f[1]), int(f[2]), f[3], f[4]
-            mn = t1.split()[0].lower() if t1.split() else "?"
+            mn = norm(t1).split()[0] if norm(t1).split() else "?"
             groups.setdefault((kind, mn), []).append(dict(pattern=p, tail=tail, text=t1, detail=detail))
     out = []
     for (kind, mn), lst in sorted(groups.items()):
@@ -104,7 +134,7 @@ def scan(w, s, name, tier, kinds_wanted, known, prop, survey):
         if survey:
             s.notes.append("SURVEY\t%s\t%s\t%s\t%d\t%s" % (name, kind, mn, len(lst), str(lst[0])[:260]))
             continue
-        fid = known.match(name, kind, mn)
+        fid = known.match(name, kind, mn.split("/")[0], mn.split("/")[1] if "/" in mn else "*")
         if fid:
             s.known_hits.setdefault(fid, dict(cpu=name, kind=kind, mnemonic=mn, example=lst[0]))
             s.excluded_known += len(lst)
@@ -154,7 +184,7 @@ def replay(payload):
         for line in r["anomalies"].decode("latin-1").split("\n"):
             f = line.split("\t")
             if f[0] == payload["kind"] or (payload["kind"].startswith("asm_") and f[0] == payload["kind"][4:]):
-                if f[0] == "c07_mismatch" and norm(f[4]) == norm(f[5]):
+                if f[0] == "c07_mismatch" and same(f[4], f[5]):
                     continue
                 return True, line[:300]
         return False, "passes"
